@@ -67,6 +67,9 @@ class Prop(object):
         mb = 4200 if tier == 'quick' else 8200
         for lo in range(0, mb + 1, 300):
             u.append(('mpi', {'lo': lo, 'hi': min(lo + 300, mb + 1), 'seed': seed}))
+        # ... and around every power of two up to the top of the two-octet bit count (16383/4, 32767/8 - sign bit of a 16-bit count -, 65535)
+        for b in (8191, 16383, 32767, 49151, 65533):
+            u.append(('mpi', {'lo': b - 1 if b != 65533 else 65532, 'hi': b + 3, 'seed': seed}))
         u.append(('time', {}))
         u.append(('count', {}))
         u.append(('grow', {}))
@@ -304,7 +307,7 @@ class Prop(object):
                     r.viol('mpi.encode', {'kind': oc, 'zero': v == 0}, {'lo': bits, 'hi': bits + 1, 'seed': case.get('seed', 0)},
                            'MPI of %d bits (%s): %s' % (bits, pat, info))
                 encs = [('canonical', want)]
-                if bits % 8 != 0 and bits > 0:
+                if bits % 8 != 0 and bits > 0 and ((bits + 7) // 8) * 8 <= 0xFFFF:
                     # non-canonical bit count within the same octet count: RFC 4880 3.2 value is the octets
                     encs.append(('loose-bitcount', (((bits + 7) // 8) * 8).to_bytes(2, 'big') + want[2:]))
                 for ename, enc in encs:
